@@ -141,6 +141,14 @@ func (g *G) coef() *big.Int {
 		return new(big.Int).Add(pow10(g.pick(35)), big.NewInt(int64(g.pick(3)-1)))
 	case 3:
 		return new(big.Int).SetUint64(g.u64())
+	case 4:
+		// 2^110 = (Cmax+1)/10 and its neighbours, possibly scaled down by a power of ten
+		c := new(big.Int).Lsh(big.NewInt(1), 110)
+		c.Add(c, big.NewInt(int64(g.pick(3)-1)))
+		if g.chance(0.3) {
+			c.Quo(c, pow10(g.pick(30)))
+		}
+		return c
 	}
 	return g.coefLen(1 + g.pick(35))
 }
